@@ -24,15 +24,21 @@ fn all_vec(bits: u32) -> Vec<u32> {
 
 /// unary spaces of a type
 pub fn unary<T: Fx>(thorough: bool) -> Vec<(String, Space)> {
+    unary_low::<T>(thorough, 12)
+}
+
+/// unary spaces with a chosen lattice density for the quick tier of P32E2 (`low` = number of low bits taken
+/// from the menu {0, 1, ones, msb}; low = 0 means the complete 2^32 space also in the quick tier)
+pub fn unary_low<T: Fx>(thorough: bool, low: u32) -> Vec<(String, Space)> {
     match T::N {
         8 => vec![(String::new(), Space::all(8))],
         16 => vec![(String::new(), Space::all(16))],
         _ => {
-            if thorough {
+            if thorough || low == 0 {
                 vec![(String::new(), Space::all(32))]
             } else {
                 vec![
-                    (String::new(), Space::func(lattice_len(32, 12), "lattice: every value of the top 20 bits x low-12-bit menu {0,1,0xfff,0x800}", |i| lattice_key(32, 12, i) as u128)),
+                    (String::new(), Space::func(lattice_len(32, low), format!("lattice: every value of the top {} bits x low-{}-bit menu {{0, 1, ones, msb}}", 32 - low, low), move |i| lattice_key(32, low, i) as u128)),
                     ("#A".into(), Space::list32(alphabet(32, 2, true), "A(32,2,rich)")),
                 ]
             }
@@ -343,7 +349,7 @@ pub fn c05<T: Fx>(thorough: bool) -> Vec<CellDef> {
 
 pub fn c06<T: Fx>(thorough: bool) -> Vec<CellDef> {
     let mut v = vec![];
-    for (sfx, sp) in unary::<T>(thorough) {
+    for (sfx, sp) in unary_low::<T>(thorough, 0) {
         v.push(CellDef::new("C06", format!("{}/sqrt{}", T::NAME, sfx), sp, |k| {
             let a = k as u32;
             let (want, nt) = refs::sqrt(T::N, T::ES, a);
@@ -404,7 +410,7 @@ fn conv_cell<S: Fx, D: Fx>(thorough: bool, f: fn(S) -> D) -> Vec<CellDef> {
             Out::cmp(guard(|| f(S::fb(a)).tb() as u128), want as u128, nt)
         }));
     }
-    for (sfx, sp) in unary::<S>(thorough) {
+    for (sfx, sp) in unary_low::<S>(thorough, 0) {
         v.push(CellDef::new("C08", format!("{}->{}{}", S::NAME, D::NAME, sfx), sp, move |k| {
             let a = k as u32;
             let (want, nt) = refs::conv(S::N, S::ES, D::N, D::ES, a);
@@ -463,7 +469,7 @@ pub fn c09<T: Fx>(thorough: bool) -> Vec<CellDef> {
                 nt,
             )
         };
-        for (sfx, sp) in unary::<T>(thorough) {
+        for (sfx, sp) in unary_low::<T>(thorough, 5) {
             v.push(CellDef::new("C09", format!("{}/{}{}", T::NAME, RND[which as usize], sfx), sp, case));
         }
         if T::N == 32 && !thorough {
@@ -670,10 +676,10 @@ pub fn c10<T: Fx>(thorough: bool) -> Vec<CellDef> {
         }
     };
     v.push(CellDef::new("C10", format!("{}/clamp", T::NAME), tri, clamp_case::<T>));
-    for (sfx, sp) in unary::<T>(thorough) {
+    for (sfx, sp) in unary_low::<T>(thorough, 8) {
         v.push(CellDef::new("C10", format!("{}/unary_values{}", T::NAME, sfx), sp, unary_vals_case::<T>));
     }
-    for (sfx, sp) in unary::<T>(thorough) {
+    for (sfx, sp) in unary_low::<T>(thorough, 8) {
         v.push(CellDef::new("C10", format!("{}/unary_predicates{}", T::NAME, sfx), sp, unary_preds_case::<T>));
     }
     v
@@ -688,7 +694,7 @@ fn f32_space(thorough: bool) -> Vec<(String, Space)> {
         vec![(String::new(), Space::all(32))]
     } else {
         // sign x exponent x top 13 mantissa bits x low menu
-        vec![(String::new(), Space::func(lattice_len(32, 10), "f32 lattice: every sign/exponent/top-13-mantissa-bits x low-10-bit menu {0,1,0x3ff,0x200}", |i| lattice_key(32, 10, i) as u128))]
+        vec![(String::new(), Space::func(lattice_len(32, 4), "f32 lattice: every sign/exponent/top-19-mantissa-bits x low-4-bit menu {0,1,0xf,0x8}", |i| lattice_key(32, 4, i) as u128))]
     }
 }
 
@@ -823,7 +829,7 @@ pub fn c02<T: Fx>(thorough: bool) -> Vec<CellDef> {
 
 pub fn c03<T: Fx>(thorough: bool) -> Vec<CellDef> {
     let mut v = vec![];
-    for (sfx, sp) in unary::<T>(thorough) {
+    for (sfx, sp) in unary_low::<T>(thorough, 0) {
         v.push(CellDef::new("C03", format!("{}/to_f64{}", T::NAME, sfx), sp, |k| {
             let a = k as u32;
             let p = T::fb(a);
@@ -843,7 +849,7 @@ pub fn c03<T: Fx>(thorough: bool) -> Vec<CellDef> {
             Out::cmp(got, want, true).ops(2)
         }));
     }
-    for (sfx, sp) in unary::<T>(thorough) {
+    for (sfx, sp) in unary_low::<T>(thorough, 0) {
         v.push(CellDef::new("C03", format!("{}/to_f32{}", T::NAME, sfx), sp, |k| {
             let a = k as u32;
             let p = T::fb(a);
@@ -868,7 +874,7 @@ pub fn c03<T: Fx>(thorough: bool) -> Vec<CellDef> {
             Out::cmp(got, want, nt).ops(2)
         }));
     }
-    for (sfx, sp) in unary::<T>(thorough) {
+    for (sfx, sp) in unary_low::<T>(thorough, 0) {
         v.push(CellDef::new("C03", format!("{}/f64_roundtrip{}", T::NAME, sfx), sp, |k| {
             let a = k as u32;
             let p = T::fb(a);
@@ -877,7 +883,7 @@ pub fn c03<T: Fx>(thorough: bool) -> Vec<CellDef> {
     }
     let text_spaces: Vec<(String, Space)> = if T::N == 32 && !thorough {
         vec![
-            (String::new(), Space::func(lattice_len(32, 14), "lattice(top 18 bits x low menu)", |i| lattice_key(32, 14, i) as u128)),
+            (String::new(), Space::func(lattice_len(32, 9), "lattice(top 23 bits x low menu)", |i| lattice_key(32, 9, i) as u128)),
             ("#A".into(), Space::list32(alphabet(32, 2, true), "A(32,2,rich)")),
         ]
     } else {
@@ -906,7 +912,7 @@ fn int32_space(thorough: bool) -> Vec<(String, Space)> {
         vec![(String::new(), Space::all(32))]
     } else {
         vec![
-            (String::new(), Space::func(lattice_len(32, 12), "lattice(top 20 bits x low menu)", |i| lattice_key(32, 12, i) as u128)),
+            (String::new(), Space::func(lattice_len(32, 4), "lattice(top 28 bits x low menu)", |i| lattice_key(32, 4, i) as u128)),
             ("#small".into(), Space::func(1 << 18, "|x| < 2^17 contiguous", |i| (i as i64 - (1 << 17)) as i32 as u32 as u128)),
         ]
     }
@@ -1028,7 +1034,7 @@ pub fn c07<T: Fx>(thorough: bool) -> Vec<CellDef> {
     }
     // posit -> integer (NaR is outside the property: skipped)
     for (which, name) in ["to_i32", "to_u32", "to_i64", "to_u64"].iter().enumerate() {
-        for (sfx, sp) in unary::<T>(thorough) {
+        for (sfx, sp) in unary_low::<T>(thorough, 7) {
             v.push(CellDef::new("C07", format!("{}/{}{}", T::NAME, name, sfx), sp, move |k| {
                 let a = k as u32;
                 let p = T::fb(a);
